@@ -87,13 +87,13 @@ pub fn c07(tier: Tier, seed: u64) -> i32 {
 pub fn c12(tier: Tier, seed: u64) -> i32 {
     use crate::monitors::c12::C12;
     let mut rep = Report::new("C12", tier, seed);
-    rep.rule = "function level: on byte snapshots of (whirlpool, position, lower array, upper array) taken from running histories (reachable bytes, both array encodings, same-array and two-array positions), with liquidity deltas {0, +-1, +-L, -(L+1), i128::MIN/MAX, overflowing, random} and timestamps {equal, earlier, later, u64::MAX}: Anchor (deserialize -> calculate_modify_liquidity -> sync -> token deltas -> serialize) vs Pinocchio (memory-mapped views over copies): same Ok/Err and error number, every field of the update structs, token amounts, and the resulting bytes of all four accounts. instruction level: every increase/decrease(_v2) of the history is also executed on a clone of the pre-state through whirlpool::entry (Anchor dispatch): same success/failure, identical resulting bank, identical event bytes; the six Pinocchio discriminators never reach the Anchor dispatcher through entrypoint. distinct = (level, instruction or delta sign, encoding, outcome)".into();
+    rep.rule = "function level: on byte snapshots of (whirlpool, position, lower array, upper array) taken from running histories (reachable bytes, both array encodings, same-array and two-array positions, pools with 0-3 rewards running, paused or uninitialised), with liquidity deltas {0, +-1, +-L, -(L+1), i128::MIN/MAX, overflowing, random} and timestamps {equal, earlier, later, u64::MAX}: Anchor (deserialize -> calculate_modify_liquidity -> sync -> token deltas -> serialize) vs Pinocchio (memory-mapped views over copies): same Ok/Err and error number, every field of the update structs, token amounts, and the resulting bytes of all four accounts. instruction level: every increase/decrease(_v2) of the history is also executed on a clone of the pre-state through whirlpool::entry (Anchor dispatch): same success/failure, identical resulting bank, identical event bytes; the six Pinocchio discriminators never reach the Anchor dispatcher through entrypoint. distinct = (level, instruction or delta sign, encoding, outcome)".into();
     rep.assumptions = vec![SVM_ASSUMPTION.into(), "the two Pinocchio-only instructions (by-token-amounts, reposition) have unreachable!() Anchor bodies: they are judged by C05/C07/C08/C16/C18 monitors, not by a route differential".into()];
     let per_shard = tier.pick(14, 1400);
     let acc = run_histories(
         seed,
         per_shard,
-        move |_r| HistCfg { ops: 120, spl_only: false, allow_transfer_fee: true, seed_growth: true, w_swap: 30, w_liq: 50, w_fees: 8, w_lifecycle: 6, w_clock: 4, w_setters: 2, ..Default::default() },
+        move |_r| HistCfg { ops: 130, spl_only: false, allow_transfer_fee: true, seed_growth: true, w_swap: 28, w_liq: 48, w_fees: 6, w_lifecycle: 5, w_clock: 6, w_setters: 2, w_reward: 9, ..Default::default() },
         || vec![Box::new(C12::default()) as Box<dyn Monitor>],
     );
     rep.acc = acc;
